@@ -4,7 +4,10 @@ import random
 
 import numpy as np
 
-TOK_MU2 = {1: 1.7, 2: 2.5, 3: 9.0, 4: 24.0, 5: 300.0}   # walls at tokens 2 and 4; reference at token 3
+# walls at tokens 2 and 4 (perfect squares: a reference given as sqrt(mu2) lands exactly on them);
+# default reference at token 3
+TOK_MU2 = {1: 1.69, 2: 2.25, 3: 9.0, 4: 25.0, 5: 289.0}
+DEFAULT_REF = (3, 4)
 TOP = 1e16
 
 
@@ -14,7 +17,8 @@ def make(cfg):
     from eko.quantities.couplings import CouplingsInfo
     from eko.quantities.heavy_quarks import QuarkMassScheme
 
-    info = CouplingsInfo(alphas=cfg["alphas"], alphaem=0.00781, ref=(TOK_MU2[3] ** 0.5, 4), em_running=cfg["running"])
+    rtok, rnf = cfg.get("ref", DEFAULT_REF)
+    info = CouplingsInfo(alphas=cfg["alphas"], alphaem=0.00781, ref=(TOK_MU2[rtok] ** 0.5, rnf), em_running=cfg["running"])
     return Couplings(info, order=(cfg["qcd"], cfg["qed"]),
                      method=CouplingEvolutionMethod.EXACT if cfg["method"] == "exact" else CouplingEvolutionMethod.EXPANDED,
                      masses=[TOK_MU2[2], TOK_MU2[4], TOP], hqm_scheme=QuarkMassScheme.POLE if cfg["scheme"] == "POLE" else QuarkMassScheme.MSBAR,
@@ -75,13 +79,18 @@ def run_history(cfg, hist, tokens=True):
                     events.append({"ev": "mutate", "j": j})
     finally:
         Couplings.compute = orig
-    return {"cfg": cfg, "tokens": tokens, "events": events}
+    # conformance replay (Couplings!Query) is defined for token histories from the default reference
+    return {"cfg": cfg, "tokens": bool(tokens and tuple(cfg.get("ref", DEFAULT_REF)) == DEFAULT_REF), "events": events}
 
 
 def random_cfg(rng):
     qed = rng.choice([0, 0, 1, 2])
+    # the reference: mostly the default point inside its natural patch (conformance replay), else any
+    # token - also exactly on a matching scale - with any nf
+    ref = DEFAULT_REF if rng.random() < 0.6 else (rng.choice([1, 2, 2, 3, 4, 4, 5]), rng.choice([3, 4, 5]))
     return {"qcd": rng.choice([1, 2, 3, 4]), "qed": qed, "running": bool(qed and rng.random() < 0.5),
-            "method": rng.choice(["exact", "expanded"]), "alphas": rng.choice([0.118, 0.2, 0.35]), "scheme": rng.choice(["POLE", "MSBAR"])}
+            "method": rng.choice(["exact", "expanded"]), "alphas": rng.choice([0.118, 0.2, 0.35]), "scheme": rng.choice(["POLE", "MSBAR"]),
+            "ref": ref}
 
 
 def random_token_history(rng, n):
